@@ -56,7 +56,7 @@ CFG = dict(
     residue=[
         "POSITIVE VOLUME is now a theorem in lattice-edge ids and exact arithmetic: march_volume_positive (= C09_volume_positive_full): box of cells with outside boundary layer, ANY sign pattern, every vertex strictly between the two ends of its lattice edge, non-empty surface => 0 < signed volume; march_volume_nonneg with parameters in [0,1]; march_weld_volume_positive transfers it through any weld map that preserves positions (weld_preserves_volume: dropped triangles have two corners at one position). Also proved: emitted_triangle_outward (per triangle), volume_translation_invariant. NOT covered by these theorems: (a) IEEE rounding of the interpolation and the float-keyed weld, which moves a welded vertex by up to 1e-3 (the real weld is not position-preserving: exact-arithmetic statement only; the change of volume is bounded by surface area x 1e-3 but that bound is not a theorem); (b) parameters exactly 0 or 1 (a sample equal to the cutoff): only >= 0 is proved; (c) [closed] marched_tris_perm_box / marched_volume_positive restate it for exactly the triangle list marchFloat1 emits (under MarchHyp). Per run: c09.holds.outward (total signed volume > 0 on the real mesh) and c09.holds.tri_outward. The per-edge form normal . d_i > 0 is FALSE for this table (72 of 820 triangles); the sum form is what holds",
         "c09.holds.tri_outward skips triangles with a corner within the weld radius of a lattice corner or on several sign-changing edges (their lattice edge is not determined by the position); epsilon 1e-6 cell^2",
-        "TRANSFER from lattice-edge ids to the real mesh: the Balanced half transfers unconditionally (weld_preserves_balance / march_weld_balanced: any vertex identification, dropping triangles with two equal corners); 'exactly one' is PROVED to transfer only under the hypothesis that the float vertex map is injective on the sign-changing lattice edges (march_weld_closed, weld_preserves_nodup) - i.e. when no two distinct sign-changing lattice edges produce vertices in one weld cell; the hypothesis is sufficient, not necessary, it is NOT a theorem and it is FALSE in general: a sample EQUAL to the cutoff gives interpolation parameter 0/1, so up to six lattice edges produce the same corner position. Observed: lattice-aligned single shapes, shapes touching at a point/edge/corner stay closed (strict oracle c09.holds.closed on the lattice-aligned classes, both tiers, single block and across seams); two inside regions separated only by samples equal to the cutoff (two boxes touching at a lattice face) are welded into coincident sheets: balanced, but 32 directed edges matched twice = known finding C09-touching-at-cutoff (op c09.holds.closed_touching_at_cutoff_witness, replayed every run; c09.holds.balanced is true on it). SECOND failing class found by the lattice-aligned generators = known finding C09-cutoff-noise-line: an axis-aligned capsule with whole-cell radius on a lattice line at 5 or 10 cubes per unit has a whole lattice LINE of samples at -2.2e-16 (float noise below the cutoff); the one-sample ridge is welded flat, 76 directed edges matched twice, balanced (op c09.holds.closed_cutoff_noise_line_witness; the same capsules at 1, 2, 4, 8 cubes per unit are exact and pass the strict oracle). THIRD class (seed 1 of the streams with parallel adders) = C09-weld-pinch-fine-resolution: the weld tolerance is ABSOLUTE (1e-3 world units = 0.037 cells at 37 cubes per unit); a generic capsule at 37/unit has two neighbouring vertices inside the weld cells of two lattice corners, vertices of other lattice edges are merged into them and one edge is shared by four triangles (2 directed edges twice, balanced, no degenerate face): op c09.holds.closed_weld_pinch_witness (fixed repro every run); RANDOM pipeline / accumulated canvases use c09.holds.closed_or_weld_pinch (strict closed, or balanced + no degenerate face + every over-used directed edge joins two vertices within the weld radius of lattice corners); the deterministic catalogue keeps the strict oracle",
+        "TRANSFER from lattice-edge ids to the real mesh: the Balanced half transfers unconditionally (weld_preserves_balance / march_weld_balanced: any vertex identification, dropping triangles with two equal corners); 'exactly one' is PROVED to transfer only under the hypothesis that the float vertex map is injective on the sign-changing lattice edges (march_weld_closed, weld_preserves_nodup) - i.e. when no two distinct sign-changing lattice edges produce vertices in one weld cell; the hypothesis is sufficient, not necessary, it is NOT a theorem and it is FALSE in general: a sample EQUAL to the cutoff gives interpolation parameter 0/1, so up to six lattice edges produce the same corner position. Observed: lattice-aligned single shapes, shapes touching at a point/edge/corner stay closed (strict oracle c09.holds.closed on the lattice-aligned classes, both tiers, single block and across seams); two inside regions separated only by samples equal to the cutoff (two boxes touching at a lattice face) are welded into coincident sheets: balanced, but 32 directed edges matched twice = known finding C09-touching-at-cutoff (op c09.holds.closed_touching_at_cutoff_witness, replayed every run; c09.holds.balanced is true on it). SECOND failing class found by the lattice-aligned generators = known finding C09-cutoff-noise-line: an axis-aligned capsule with whole-cell radius on a lattice line at 5 or 10 cubes per unit has a whole lattice LINE of samples at -2.2e-16 (float noise below the cutoff); the one-sample ridge is welded flat, 76 directed edges matched twice, balanced (op c09.holds.closed_cutoff_noise_line_witness; the same capsules at 1, 2, 4, 8 cubes per unit are exact and pass the strict oracle). THIRD class (seed 1 of the streams with parallel adders) = C09-weld-pinch-fine-resolution: the weld tolerance is ABSOLUTE (1e-3 world units = 0.037 cells at 37 cubes per unit); a generic capsule at 37/unit has two neighbouring vertices inside the weld cells of two lattice corners, vertices of other lattice edges are merged into them and one edge is shared by four triangles (2 directed edges twice, balanced, no degenerate face): op c09.holds.closed_weld_pinch_witness (fixed repro every run); RANDOM pipeline / accumulated canvases use c09.holds.closed_or_weld_pinch (strict closed, or balanced + no degenerate face + every over-used directed edge has an end point within the weld radius of a lattice corner (one weld-merged end point suffices; widened after a thorough run showed doubled edges whose second end point is an ordinary vertex)); the deterministic catalogue keeps the strict oracle",
         "that LookupOrAdd (1e-4) / WeldByFloat3Attribute (1e-3) give ONE id to the two float computations of one lattice edge (interp_symmetric is the exact-arithmetic statement) and do not merge distinct lattice edges when cell size >> 1e-3 and no sample is within float noise of the cutoff: observed by the oracles on the final mesh, not proved",
         "march_closed is a theorem about lattice-edge ids over a box of cells (see one_result); see the TRANSFER item for what it says about the real mesh",
         "marched_closed covers exactly the iteration of marchFloat1 (all allocated blocks in any order, all 100^3 cells, skip when a corner block is missing, case index from the fetched values) under MarchHyp; MarchHyp's padding hypothesis is what AddField's one-cell padding provides per axis (addField_allocates_neighbourhood), not derived for an arbitrary sequence of AddField calls; block enumeration without repetition = iteration over a Go map",
